@@ -45,6 +45,11 @@ Sensitivity (quick tier, seed 1, scratch copy of /repo/tornado, one mutant at a 
   M6 ping handling: pong sent with an empty payload                                    -> C14.pongs
   M7 _receive_frame: 7-bit lengths 125/126 mis-dispatched                              -> C14.messages_received
   M8 _receive_frame: first masking key reused for later frames                         -> C14.pongs / C14.messages_received
+  M9 _create_compressors: other_side computed wrongly, so the DEcompressor is built from this endpoint's own
+     negotiated parameters instead of the peer's (only visible with an asymmetric negotiation and a peer message that
+     back-references beyond the smaller window / into the previous message)               -> C14.messages_received
+     (systematic since the deterministic part `deflate_grid`: 2 reference-peer set-ups x 64 parameter combinations x 6
+     far-back-referencing messages in both directions; before that the Hypothesis part caught it at some seeds only)
   DESIGN's "reset the *compressor* each message despite takeover" is an equivalent mutant for this property
   (a persistent inflater decodes such a stream); the observable counterpart M3 (inflater) was used instead.
 """
@@ -566,10 +571,35 @@ def run_wbits8(ctx, case):
     ctx.note(case, labels, False)
 
 
-PARTS = {"main": run_case, "wbits8": run_wbits8}
+def deflate_grid():
+    """Deterministic: both reference-peer set-ups x every combination of server/client max_window_bits in
+    {absent, 9, 12, 15} x server/client no_context_takeover in {absent, present} (64, most of them ASYMMETRIC --
+    Tornado's own client can only negotiate symmetric ones), with messages that back-reference far: an
+    incompressible 1100-byte block repeated to 3000 bytes (matches at distance 1100 > the 512-byte window of
+    wbits 9), the same message again (matches into the previous message: context takeover), one 8 KiB message
+    made of a repeated 2500-byte block; the same contents are also written by Tornado and decoded by the
+    reference inflater under the agreed window / takeover rules."""
+    def msg(content, binary, cuts=()):
+        return {"binary": binary, "content": content, "cuts": list(cuts), "gaps": [], "every_gap": False, "compress": True, "flush": "sync"}
+    a = ("rawrep", 3000, b"\x01", 1100)
+    b = ("rawrep", 8192, b"\x02", 2500)
+    ops = [("in", msg(a, True)), ("out", msg(a, False)), ("in", msg(a, True, [400])), ("out", msg(a, False)),
+           ("in", msg(b, False)), ("out", msg(b, True))]
+    for setup in ("ref_to_server", "ref_to_client"):
+        for sw in (None, 9, 12, 15):
+            for cw in (None, 9, 12, 15):
+                for snct in (False, True):
+                    for cnct in (False, True):
+                        yield {"setup": setup, "deflate": {"server_nct": snct, "client_nct": cnct, "server_wbits": sw, "client_wbits": cw},
+                               "options": {}, "ref": (6, 8), "ops": ops, "segs": [7, 300], "hs_segs": [], "masks": [b"\x21\x43\x65\x87"],
+                               "callback_mode": (cw or 0) % 2 == 0, "seed": b"g"}
+
+
+PARTS = {"main": run_case, "wbits8": run_wbits8, "deflate_grid": run_case}
 
 
 def main(ctx):
     ctx.run_replays(PARTS)
+    ctx.enumerate(deflate_grid(), run_case, name="deflate_grid")
     ctx.explore(case_s, run_case, ctx.n(1000, 20000), name="main")
     ctx.explore(wbits8_case_s, run_wbits8, ctx.n(16, 200), name="wbits8")
